@@ -50,6 +50,7 @@ def step (line : String) : String :=
   | "c03.docs.markdown" :: args => handleDocsMarkdown args
   | "c03.docs.files" :: args => handleDocsFiles args
   | "c03.docs.html" :: args => handleDocsHtml args
+  | "c03.docs.lossylines" :: args => handleDocsLossyLines args
   | "c14.gcno.computeb" :: args => Grcov.Drv.C14Gcno.handleComputeB args
   | "c14.gcno.gcdarecs" :: args => Grcov.Drv.C14Gcno.handleGcdaRecs args
   | "main.plan" :: args => Grcov.Drv.MainGlue.handlePlan args
